@@ -43,6 +43,10 @@ const (
 	// underlying hierarchical deterministic key derivation.
 	MaxAddressesPerAccount = hdkeychain.HardenedKeyStart - 1
 
+	// MaxChildNumHint is the largest address index an import may name as already used
+	// (every address up to it is derived and stored at once).
+	MaxChildNumHint = 1 << 20
+
 	// ExternalBranch is the child number to use when performing BIP0044
 	// style hierarchical deterministic key derivation for the external
 	// branch.
@@ -175,6 +179,14 @@ func createManagerKeyScope(km db.Bucket, root *hdkeychain.ExtendedKey,
 	net *config.Params, addressGapLimit uint32) (db.BucketMeta, error) {
 
 	scope := Net2KeyScope[net.HDCoinType]
+
+	// An import hands the address index hints of the request (or of the keystore file)
+	// straight to the derivation loops below. Bound them: a hint like 4294967295 would
+	// keep the wallet deriving - holding its lock and every derived key in memory - until
+	// it runs out of memory.
+	if hdpath.ExternalChildNum > MaxChildNumHint || hdpath.InternalChildNum > MaxChildNumHint {
+		return nil, ErrChildNumTooLarge
+	}
 
 	accountIDBucket, err := db.GetOrCreateBucket(km, accountIDBucket)
 	if err != nil {
